@@ -402,6 +402,44 @@ def lost_static_scenario():
     return found, {"lost-static-scenarios": 1}
 
 
+def watch_queue_scenario():
+    """One director in watch mode, three build phases: a step with a volatile output that is never written; the
+    step is dropped (the removal of its volatile file fails: nothing is there); the user then creates a file at
+    that path and declares it static.  The removal queue lives for one cleanup pass only: the user's file stays."""
+    from simdirector import A, FifoSchedule, Project, SimDirector, plan_file
+
+    keep = A.step("keep", inp=["src/a.txt"], out=["out/keep.txt"])
+    v1 = [A.static("src/a.txt"), A.step("noter", inp=["src/a.txt"], out=["out/n.txt"], vol=["notes.txt"]), keep]
+    v2 = [A.static("src/a.txt"), keep]
+    v3 = [A.static("src/a.txt", "notes.txt"), keep]
+    project = Project(scripts={"./plan.py": v1, "noter": [A.read_declared(), A.write("out/n.txt")]},
+                      files={"src/a.txt": "A1\n", "plan.py": plan_file(v1, note="v1")})
+    found: list[Finding] = []
+    case = {"scenario": "watch-queue", "reproduce": "harness/props/c06.py: watch_queue_scenario()"}
+    with SimDirector(project, seed=1) as sim:
+        res = sim.build(njob=1, watch=True, schedule=FifoSchedule())
+        builds = [[res.status, str(res.returncode), res.tags("REMOVE")]]
+        if res.status != "done":
+            return found, {"watch-queue-build-" + res.status: 1}
+        for plan, extra, note in ((v2, [], "v2"), (v3, [("write", "notes.txt", "written by the user\n")], "v3")):
+            res = sim.watch_rebuild([("script", "./plan.py", plan, ""), ("write", "plan.py", plan_file(plan, note=note)), *extra],
+                                    schedule=FifoSchedule())
+            builds.append([res.status, str(res.returncode), res.tags("REMOVE")])
+            if res.status != "done":
+                with contextlib.suppress(Exception):
+                    sim.shutdown()
+                return found, {"watch-queue-build-" + res.status: 1}
+        case["builds"] = builds
+        present = "notes.txt" in ck.snapshot(sim.root)[0]
+        with contextlib.suppress(Exception):
+            sim.shutdown()
+        if not present:
+            finding(found, "static-file-removed:finalize:stale-removal-queue",
+                    "notes.txt was created by the user and declared static; a later cleanup pass of the same director removed "
+                    "it because a failed removal of an earlier volatile output at that path had stayed queued", case)
+    return found, {"watch-queue-scenarios": 1}
+
+
 def optional_readd_scenario():
     """A step is dropped in a build that does not clean (its output stays behind, detached and OUTDATED, with
     the old hash); the user edits the output; the step comes back as an optional step that nobody needs: it
@@ -703,7 +741,7 @@ async def correspond(ctx):
 
 async def search(ctx):
     await run_histories(ctx, "oracle-hist", ctx.budget(260, 4000), with_model=False)
-    for fn in (lost_static_scenario, optional_readd_scenario):
+    for fn in (lost_static_scenario, optional_readd_scenario, watch_queue_scenario):
         found, stats = await asyncio.to_thread(fn)
         for f in found:
             ctx.finding(f)
